@@ -48,6 +48,8 @@ def setup():
     import globals_scan
     ok, msg, _ = globals_scan.generate()          # coq/Globals.v is an input of GlobalsModel.v (C14)
     if not ok: print(msg); return 1
+    ok, msg = regen_guards()                      # coq/Guards.v is an input of GuardsModel.v (T2)
+    if not ok: print(msg); return 1
     coq_makefile()
     ok, log = coq_build([], timeout=3400)
     if not ok:
